@@ -286,7 +286,9 @@ func TestC07RegisterAtShutdown(t *testing.T) {
 		}
 		var amu sync.Mutex
 		var accepted []net.Conn
+		acceptDone := make(chan struct{})
 		go func() {
+			defer close(acceptDone)
 			for {
 				c, err := tl.Accept()
 				if err != nil {
@@ -392,6 +394,7 @@ func TestC07RegisterAtShutdown(t *testing.T) {
 			c.Close()
 		}
 		tl.Close()
+		<-acceptDone // no connection is accepted behind the sweep below
 		amu.Lock()
 		for _, c := range accepted {
 			c.Close()
@@ -402,7 +405,14 @@ func TestC07RegisterAtShutdown(t *testing.T) {
 			t.Fatalf("VERIF-KEY:fd-register-results %d registrations delivered more than one result\ncfg: %s", surplus, cfg)
 		}
 		if lost > 0 || len(l) > 0 {
-			t.Fatalf("VERIF-KEY:fd-leak-register-at-shutdown %d of %d registrations accepted around the shutdown never delivered a result (4s after Run returned); descriptors still open that were not open before: %d %v\ncfg: %s workers=%d kind=%s stopAfter=%dus", lost, len(calls), len(l), head(l, 6), cfg, workers, kind, delayUs)
+			var what []string
+			for _, ent := range head(l, 6) {
+				fd, _ := strconv.Atoi(strings.Fields(ent)[0])
+				la, _ := unix.Getsockname(fd)
+				ra, _ := unix.Getpeername(fd)
+				what = append(what, fmt.Sprintf("fd %d: local %s peer %s", fd, saString(la), saString(ra)))
+			}
+			t.Fatalf("VERIF-KEY:fd-leak-register-at-shutdown %d of %d registrations accepted around the shutdown never delivered a result (4s after Run returned); descriptors still open that were not open before: %d %v (%s; the registrations' target listens on %s, the engine on %s)\ncfg: %s workers=%d kind=%s stopAfter=%dus", lost, len(calls), len(l), head(l, 6), strings.Join(what, "; "), tl.Addr(), e.Addr, cfg, workers, kind, delayUs)
 		}
 	})
 }
@@ -415,6 +425,18 @@ type firstConn struct {
 func (f *firstConn) OnOpen(c gnet.Conn) ([]byte, gnet.Action) {
 	f.gc = c
 	return f.floodConn.OnOpen(c)
+}
+
+func saString(sa unix.Sockaddr) string {
+	switch a := sa.(type) {
+	case *unix.SockaddrInet4:
+		return fmt.Sprintf("%v:%d", net.IP(a.Addr[:]), a.Port)
+	case *unix.SockaddrInet6:
+		return fmt.Sprintf("[%v]:%d", net.IP(a.Addr[:]), a.Port)
+	case *unix.SockaddrUnix:
+		return "unix:" + a.Name
+	}
+	return "-"
 }
 
 func head(s []string, n int) []string {
